@@ -653,9 +653,13 @@ def evaluate__idiv_operator(self: XPathToken, context: ta.ContextType = None) ->
         if isinstance(context, XPathSchemaContext):
             return 1
         raise self.error('XPTY0004', err) from None
+    except OverflowError as err:
+        raise self.error('FOAR0002', err) from None
 
     try:
         result = op1 // op2
+    except OverflowError as err:
+        raise self.error('FOAR0002', err) from None
     except (ZeroDivisionError, DivisionByZero):
         if isinstance(context, XPathSchemaContext):
             return 1
